@@ -483,7 +483,11 @@ def run(ctx):
             with Tap() as tap:
                 eigen(x, P, NSIG=0, NFFT=max(P, 4))
             if tap.fb is None:
-                raise RuntimeError('eigen() did not call spectrum.eigenfre.svd: the data matrix cannot be observed')
+                # the tie through the observed data matrix is broken; the search below rebuilds FB itself and goes on
+                if not any('cannot be observed' in b.get('theorem', '') for b in ctx.broken):
+                    ctx.broken.append({'theorem': 'correspondence: FB matrix (eigen() no longer hands a data matrix to spectrum.eigenfre.svd: it cannot be observed)',
+                                       'where': 'eigenfre.eigen', 'log': ''})
+                continue
             fb = tap.fb
             cases.append('fb_case %s %d%%nat [%s]' % (czl(x), P, '; '.join(czl(row) for row in fb)))
             meta.append({'function': 'eigen (FB passed to svd)', 'x': vlib.hexv(x), 'P': P, 'N': N})
@@ -530,7 +534,10 @@ def run(ctx):
                     ctx.count('dec/regenerated_threshold_tie'); continue
             if err is None:
                 if not tap.gss_called:
-                    raise RuntimeError('eigen() did not call _get_signal_space: the chosen NSIG cannot be observed')
+                    if not any('_get_signal_space' in b.get('theorem', '') for b in ctx.broken):
+                        ctx.broken.append({'theorem': 'correspondence: decisions (eigen() no longer calls _get_signal_space: the chosen NSIG cannot be observed)',
+                                           'where': 'eigenfre.eigen', 'log': ''})
+                    continue
                 got = int(tap.nsig)
                 exp = 'None'
             elif err in ERRS:
@@ -585,6 +592,8 @@ def run(ctx):
             ns = int(tap.nsig); S1 = tap.S; Vh1 = tap.Vh; fb1 = tap.fb
             p = (pmusic if m == 'music' else pev)(x, P, NFFT=NFFT, sampling=sampling, scale_by_freq=sbf, **kw); p()
             S2 = tap.S; Vh2 = tap.Vh
+        if S1 is None or Vh1 is None or fb1 is None:
+            continue                              # svd not observable on this tree (reported above as a broken correspondence)
         if not (np.array_equal(S1, S2) and np.array_equal(Vh1, Vh2)):
             ctx.count('psd/regenerated_svd_not_reproducible'); continue
         if floor_mode is None and not svd_spec_ok(fb1, S1, Vh1):
